@@ -241,6 +241,10 @@ func runC16(c *Ctx) {
 	var total int64
 	chunk := 1 << 14
 	Par(c.NCPU, func(emit func(rng)) {
+		// values around zero first, so that the violations kept are the simplest ones
+		for v := -64; v <= 64; v++ {
+			emit(rng{v, v, true})
+		}
 		for lo := -lim; lo <= lim; lo += chunk {
 			hi := lo + chunk - 1
 			if hi > lim {
